@@ -145,6 +145,7 @@ type FE struct {
 	pendingFork    []*State
 	recoverChecked bool
 	locals         map[string]types.Type
+	addrVars       map[types.Object]bool
 }
 
 type loopInfo struct {
